@@ -301,7 +301,7 @@ pub(super) fn anchor_split(
                 // regenerate until unused: a user column may be spelled like a
                 // generated name (`_expr_0`)
                 while used_new_names.contains(new) {
-                    *new = ctx.col_name.gen();
+                    *new = ctx.gen_col_name();
                 }
                 ctx.column_names.insert(*old_cid, new.clone());
             }
